@@ -175,6 +175,14 @@ fn reader_error(cfg: &RunCfg) -> Outcome {
     r.end_at = cut;
     r.end = StreamEnd::Error(gen::pick(&[ErrorKind::ConnectionReset, ErrorKind::Other, ErrorKind::UnexpectedEof, ErrorKind::Interrupted]));
     r.pending_64 = gen::pick(&[0u32, 8]);
+    // the error may be one-shot: a source that fails once and then reports end of data, or
+    // goes on with the rest (an event receiver that rejects one oversized event does that);
+    // the encoder must stop at the error either way
+    if gen::ratio(1, 2) {
+        r.errors_left = Some(1);
+        r.resume_end_at = if gen::ratio(1, 2) { cut } else { total };
+        gen::count("fault.reader_error_one_shot");
+    }
     let mut w = writer_sched();
     let res = match run_encoder(&mut r, &mut w, 10_000_000) {
         Ok(r) => r,
@@ -263,14 +271,14 @@ pub fn spec() -> PropertySpec {
     PropertySpec {
         id: "C07",
         level: "fault_enumeration",
-        rule: "copy_chunked_async driven by a scripted source and a scripted sink. (1) sweep: every piece length 1..=65528 once, decoded by the strict decoder, which checks every size line against the data that follows (exhaustive for the size-line encoding). (2) random streams 0..1 MiB under tape-chosen/adversarial piece sequences (all-1, max-then-1, powers of 16 +-1), short writes and spurious Pending; strict independent decoder must recover the source, no zero chunk inside, exactly one terminator. (3) source error after piece k, k enumerated over 0..=#pieces: complete chunks, no terminator. (4) sink error at every chunk boundary +-1 and at drawn offsets: accepted bytes are a prefix of the fault-free output, no write after the error. distinct = hash(len, piece sequence / fault offset); non-trivial = at least 2 pieces or a fault strictly inside the output.",
+        rule: "copy_chunked_async driven by a scripted source and a scripted sink. (1) sweep: every piece length 1..=65528 once, decoded by the strict decoder, which checks every size line against the data that follows (exhaustive for the size-line encoding). (2) random streams 0..1 MiB under tape-chosen/adversarial piece sequences (all-1, max-then-1, powers of 16 +-1), short writes and spurious Pending; strict independent decoder must recover the source, no zero chunk inside, exactly one terminator. (3) source error after piece k, k enumerated over 0..=#pieces, repeating or one-shot (the source then reports end of data or goes on): complete chunks, no terminator. (4) sink error at every chunk boundary +-1 and at drawn offsets: accepted bytes are a prefix of the fault-free output, no write after the error. distinct = hash(len, piece sequence / fault offset); non-trivial = at least 2 pieces or a fault strictly inside the output.",
         scenarios: vec![
             Scenario { name: "c07.sweep", property: "C07", func: sweep, runs_quick: 65_528, runs_thorough: 65_528, doc: "every piece length" },
             Scenario { name: "c07.random", property: "C07", func: random_streams, runs_quick: 200_000, runs_thorough: 5_000_000, doc: "random streams and schedules" },
             Scenario { name: "c07.reader_error", property: "C07", func: reader_error, runs_quick: 150_000, runs_thorough: 3_000_000, doc: "source error at every chunk boundary" },
             Scenario { name: "c07.writer_error", property: "C07", func: writer_error, runs_quick: 150_000, runs_thorough: 3_000_000, doc: "sink error at boundaries and offsets" },
         ],
-        required_probes: vec!["fault.reader_error", "fault.writer_error"],
+        required_probes: vec!["fault.reader_error", "fault.reader_error_one_shot", "fault.writer_error"],
         components: components_stream(),
         assumptions: vec!["the source never returns more than the buffer it is given (AsyncRead contract)", "a 0-byte read means end of stream (AsyncRead contract); the event-stream interaction with that rule is C11's"],
     }
